@@ -25,6 +25,7 @@ ESCAPES = ['\\', '/', '!', '*', '$', '?', '.']
 ROLES4 = ['FIELD', 'COMPONENT', 'SUBCOMPONENT', 'REPETITION']
 LETTERS = {'base': 'HNFSTRE', 'v27': 'HNFSTREL'}
 NMAX = 32 if THOROUGH else 16
+CROSS_NMAX = 12      # E2 queries up to this length are decided a second time by cvc5 (thorough tier)
 FAMILY_VERSION = {'base': '2.5', 'v27': '2.7'}
 
 
@@ -137,13 +138,14 @@ def _e2_task(args):
     no_trunc = len(args) > 5 and args[5]
     import z3
     import pysym
-    from pysym import SymStr, SymChar, reshim, Or, And, Not, Unsupported
+    from pysym import SymStr, SymChar, reshim, Or, And, Not, Unsupported, cross
     import hl7apy.base_datatypes as bd
     import hl7apy.v2_7.base_datatypes as bd27
     bd.re = reshim
     bd27.re = reshim
     t0 = time.time()
     res = {'family': family + ('/4' if len(args) > 5 and args[5] else ''), 'esc': esc, 'n': n, 'queries': 0, 'solver_s': 0.0, 'cex': [], 'unknown': [], 'unsat': 0, 'known_family_sat': None}
+    res.update(cross.new_stats())
     try:
         s = z3.Solver()
         s.set('timeout', timeout_ms)
@@ -191,6 +193,8 @@ def _e2_task(args):
             r = str(s.check())
             res['solver_s'] += time.time() - q0
             res['queries'] += 1
+            if n <= CROSS_NMAX:
+                cross.decide(s, r, res, '%s esc=%r n=%d %s' % (family, esc, n, name))
             if r == 'sat':
                 m = s.model()
                 sval = value.concrete(m)
@@ -255,7 +259,10 @@ def _e2_escape(tier, seed, nproc):
         results = pool.map(_e2_task, tasks, chunksize=1)
     cex, inconclusive, queries, unsat, solver_s = [], [], 0, 0, 0.0
     fam_sat = 0
+    from pysym import cross
+    xs = cross.new_stats()
     for r in results:
+        cross.merge(xs, r)
         queries += r['queries']
         unsat += r['unsat']
         solver_s += r['solver_s']
@@ -272,6 +279,8 @@ def _e2_escape(tier, seed, nproc):
             cex.append({'call': '_replay(%r, %r, %r, %r, %r)' % (c['ob'], r['family'].split('/')[0], r['esc'], c['delims'], c['s']),
                         'message': '%s %s' % (key, c['ob'])})
     fams = members
+    if xs['cross_disagree']:
+        return {'status': 'error', 'message': 'z3 and cvc5 disagree: ' + '; '.join(xs['cross_disagree'][:5])}
     status = 'refuted' if cex else ('unknown' if inconclusive else 'confirmed')
     return {'status': status, 'queries': queries, 'solver_s': round(solver_s, 2), 'paths': len(tasks), 'confirmed_paths': len(tasks),
             'pieces_total': len(tasks), 'pieces_confirmed': len(tasks) - len({c['message'].rsplit(' ', 1)[0] for c in cex}) - len(inconclusive),
@@ -279,7 +288,10 @@ def _e2_escape(tier, seed, nproc):
             'samples': [{'tasks': len(tasks), 'queries': queries, 'unsat': unsat, 'lengths': '0..%d' % NMAX, 'escape_chars': ESCAPES,
                          'delimiter_domain': ''.join(chr(p) for p in PUNCT), 'classes_sharing_each_kernel': fams,
                          'recorded_family_excluded': exclude, 'tasks_where_recorded_family_is_satisfiable': fam_sat,
-                         'max_slots': max(r.get('slots', 0) for r in results)}]}
+                         'max_slots': max(r.get('slots', 0) for r in results),
+                         'second_solver': ('%d queries (n<=%d) decided again with the same answer %r, %d not decided within %ds'
+                                           % (xs['cross_agree'], CROSS_NMAX, xs.get('cross_by', {}), xs['cross_undecided'], cross.TLIMIT_S))
+                         if cross.ENABLED else 'off (thorough tier only)'}]}
 
 
 # ---- E1 cross-check on the unmodified class ------------------------------------------------------------------------------
